@@ -55,6 +55,10 @@ import (
 
 const c11BaseDomain = "tunnox.net"
 
+// every activation (setup histories and table bodies) uses the same listen address, so a
+// replay of an already consumed code is byte-for-byte the request that consumed it
+const c11ActivateListen = "127.0.0.1:19000"
+
 var c11Roles = []string{"U0", "U1", "V1", "V2", "S"}
 
 type c11Obj struct {
@@ -196,7 +200,7 @@ func (w *c11World) applyState(st c11State) (m2 map[string]string) {
 				}
 			}
 		case "activated":
-			nm, err := n.CCS.ActivateConnectionCode(&services.ActivateConnectionCodeRequest{Code: ko.k.Code, ListenClientID: w.id[ko.by], ListenAddress: "127.0.0.1:19100"})
+			nm, err := n.CCS.ActivateConnectionCode(&services.ActivateConnectionCodeRequest{Code: ko.k.Code, ListenClientID: w.id[ko.by], ListenAddress: c11ActivateListen})
 			if err != nil {
 				t.Fatalf("c11: activate code: %v", err)
 			}
@@ -542,7 +546,7 @@ func (w *c11World) applyRedo() {
 	w.must("V2", packet.HTTPDomainCreate, map[string]any{"target_url": "http://dh-r2-" + w.mark + ".internal:8080", "subdomain": sub, "base_domain": c11BaseDomain, "description": "desc-r2-" + w.mark})
 	w.addObj("DR", []string{"V2"}, "dh-r2-"+w.mark, "desc-r2-"+w.mark)
 	w.must("V1", packet.MappingDelete, map[string]any{"mapping_id": w.M.ID})
-	act := w.must("S", packet.ConnectionCodeActivate, map[string]any{"code": w.K.Code, "listen_address": "127.0.0.1:19200"})
+	act := w.must("S", packet.ConnectionCodeActivate, map[string]any{"code": w.K.Code, "listen_address": c11ActivateListen})
 	mid, _ := act["mapping_id"].(string)
 	if mid == "" {
 		w.t.Fatalf("c11: redo: activation returned no mapping id: %v", act)
@@ -891,7 +895,7 @@ func (w *c11World) bodies(ct byte, pt packet.Type, req string, thorough bool, se
 		case packet.ConnectionCodeList, packet.ConfigGet, packet.HTTPDomainGetBaseDomains, packet.HTTPDomainList:
 			return "{}"
 		case packet.ConnectionCodeActivate:
-			return c11J(map[string]any{"code": k.Code, "listen_address": "127.0.0.1:19000"})
+			return c11J(map[string]any{"code": k.Code, "listen_address": c11ActivateListen})
 		case packet.MappingList:
 			return c11J(map[string]any{"direction": "", "status": ""})
 		case packet.MappingGet, packet.MappingDelete:
@@ -937,6 +941,11 @@ func (w *c11World) bodies(ct byte, pt packet.Type, req string, thorough bool, se
 	// NO party to the aimed mapping (and is not the requester): for commands that name a
 	// mapping the mapping decides who is reached, never the body
 	out = append(out, [2]string{"aim0", wf("aim0")})
+	if c11IsHandled(ct) {
+		// optional/extra body members naming objects: the handler's own body plus every
+		// object-id-looking field aimed at the victims' / at S's objects
+		out = append(out, [2]string{"aimA-oids", w.mergeObjIDs(wf("aimA"), "aimA", req)}, [2]string{"aimB-oids", w.mergeObjIDs(wf("aimB"), "aimB", req)})
+	}
 	if w.MH != nil {
 		out = append(out, [2]string{"aimH", wf("aimH")}, [2]string{"aimG", wf("aimG")})
 	}
@@ -1033,6 +1042,35 @@ func c11OverrideIDs(body string, third int64) string {
 	for _, k := range []string{"target_client_id", "client_id", "listen_client_id", "receiver_id", "receiver_client_id",
 		"to_client_id", "dest_client_id", "peer_client_id", "source_client_id", "sender_client_id", "owner_client_id"} {
 		m[k] = third
+	}
+	return c11J(m)
+}
+
+func c11IsHandled(ct byte) bool {
+	if c11HandledTypes == nil {
+		return true
+	}
+	for _, h := range c11HandledTypes {
+		if h == ct {
+			return true
+		}
+	}
+	return false
+}
+
+// mergeObjIDs adds object-id-looking members (only keys the body does not have yet).
+func (w *c11World) mergeObjIDs(body, kind, req string) string {
+	var m map[string]any
+	if err := json.Unmarshal([]byte(body), &m); err != nil || m == nil {
+		return body
+	}
+	mp, k, d, _ := w.aim(kind, req)
+	for key, v := range map[string]any{"mapping_id": mp.ID, "mapping_ids": []string{mp.ID}, "id": mp.ID, "mapping": mp.ID, "port_mapping_id": mp.ID,
+		"code": k.Code, "connection_code": k.Code, "code_id": k.ID, "domain_mapping_id": d.ID, "domain_id": d.ID, "full_domain": d.FullDomain,
+		"filter": map[string]any{"mapping_id": mp.ID, "code": k.Code}, "include": []string{mp.ID, k.ID, d.ID}} {
+		if _, ok := m[key]; !ok {
+			m[key] = v
+		}
 	}
 	return c11J(m)
 }
@@ -1352,10 +1390,13 @@ func (w *c11World) bearer(cs c11Case, sent string) map[string]bool {
 	if cs.CT != byte(packet.ConnectionCodeActivate) || !w.authed(cs.Req) {
 		return out
 	}
-	if strings.Contains(sent, w.K.Code) {
+	// only a code that is still usable confers anything; re-presenting a consumed, revoked
+	// or expired code makes nobody a party
+	usable := w.state.Code == "" && !w.state.Redo
+	if usable && strings.Contains(sent, w.K.Code) {
 		out["K"] = true
 	}
-	if strings.Contains(sent, w.KS.Code) {
+	if (usable || w.state.Redo) && strings.Contains(sent, w.KS.Code) {
 		out["KS"] = true
 	}
 	return out
@@ -1465,7 +1506,10 @@ func (w *c11World) judge(cs c11Case, cmd *packet.CommandPacket, out *c11Outcome)
 			var b struct {
 				MappingID string `json:"mapping_id"`
 			}
-			if json.Unmarshal([]byte(cmd.CommandBody), &b) == nil {
+			// the DNS forwarders and C2C notify address a client, they do not name a mapping
+			// (a mapping_id member in their body is an unknown extra field)
+			addressing := cs.CT == byte(packet.DNSResolve) || cs.CT == byte(packet.DNSQuery) || cs.CT == byte(packet.SendNotifyToClient)
+			if json.Unmarshal([]byte(cmd.CommandBody), &b) == nil && !addressing {
 				named = w.mapObj[b.MappingID]
 			}
 			if named != "" {
@@ -1648,6 +1692,7 @@ type c11Driver struct {
 	suffix  string
 	state   c11State
 	reqs    []string          // requesters to iterate (default c11Roles)
+	kinds   map[string]bool   // body kinds to run (nil = all); the variant worlds run the core kinds only
 	record  map[string]string // fingerprints of unforged cases in the plain world, by (type, ptype, requester, body kind)
 }
 
@@ -1760,6 +1805,9 @@ func (d *c11Driver) sweep(types []byte, pts []packet.Type, forges []string, thor
 				baseByKind := map[string]string{}
 				for ki := range kinds {
 					kind := kinds[ki][0]
+					if d.kinds != nil && !d.kinds[kind] {
+						continue
+					}
 					idx := ki
 					bodyOf := func(w *c11World) string { return w.bodies(ct, pt, req, thorough, d.seq)[idx][1] }
 					base, bout := d.one(ct, pt, req, kind, "none", bodyOf)
@@ -1801,6 +1849,9 @@ func (d *c11Driver) sweep(types []byte, pts []packet.Type, forges []string, thor
 						}
 					}
 					for _, f := range forges {
+						if strings.HasSuffix(kind, "-oids") {
+							break // object-id members are themselves the forgery of this body kind
+						}
 						if (f == "bodyids" || f == "all") && !strings.HasPrefix(kind, "aim") && kind != "default" {
 							continue // identity fields can only be added to a JSON object body
 						}
@@ -1861,7 +1912,7 @@ func c11AllTypes() []byte {
 func TestVerifC11Table(t *testing.T) {
 	run := vk.Start(t, "C11", "table")
 	defer run.Finish()
-	run.Rule("every CommandType byte 0..255 as JsonCommand (quick: CommandResp only for registered/special-cased types; thorough: CommandResp for all) x requester {U0 no handshake, U1 phase-1 for V1's id only, V1 listen party, V2 target party, S unrelated authenticated} x body {handler's well-formed body aimed at the victims' objects, same aimed at S's objects, same aimed at a server-listened mapping (ListenClientID 0 -> V2), the first two again with every receiver/identity-looking body field naming a non-party client, DNS default-target, empty, truncated JSON (+4 malformed mutants thorough)} x forgery {none, victim ids in SenderId/ReceiverId, victim's secret in Token, victim's id in Token, identity fields added to the body (+swapped ids, all combined thorough)}; a case is distinct by that tuple; then, for the registered and special-cased types, again with the mappings in state {revoked by a party, expired but stored, inactive} and the connection codes in state {revoked, expired but stored, activated}; worlds (fresh mini server + objects with fresh markers) are rebuilt after every state-changing case")
+	run.Rule("every CommandType byte 0..255 as JsonCommand (quick: CommandResp only for registered/special-cased types; thorough: CommandResp for all) x requester {U0 no handshake, U1 phase-1 for V1's id only, V1 listen party, V2 target party, S unrelated authenticated} x body {handler's well-formed body aimed at the victims' objects, same aimed at S's objects, same aimed at a server-listened mapping (ListenClientID 0 -> V2), the first two again with object-id members (mapping_id, code, domain ids, filters) added and with every receiver/identity-looking body field naming a non-party client, DNS default-target, empty, truncated JSON (+4 malformed mutants thorough)} x forgery {none, victim ids in SenderId/ReceiverId, victim's secret in Token, victim's id in Token, identity fields added to the body (+swapped ids, all combined thorough)}; a case is distinct by that tuple; then, for the registered and special-cased types, again with the mappings in state {revoked by a party, expired but stored, inactive} and the connection codes in state {revoked, expired but stored, activated}; worlds (fresh mini server + objects with fresh markers) are rebuilt after every state-changing case")
 	d := &c11Driver{t: t, run: run, settle: map[byte]bool{}, reached: map[byte]bool{}, record: map[string]string{}}
 	defer func() {
 		if d.w != nil {
@@ -1880,6 +1931,7 @@ func TestVerifC11Table(t *testing.T) {
 	sort.Slice(registered, func(i, j int) bool { return registered[i] < registered[j] })
 	run.Observe("registered_handler_types", c11Ints(registered))
 	special := []byte{byte(packet.HTTPProxyResponse), byte(packet.SOCKS5TunnelRequestCmd), byte(packet.DNSResolve), byte(packet.DNSQuery), byte(packet.TunnelTrafficReport), byte(packet.Disconnect)}
+	c11HandledTypes = append(append([]byte{}, registered...), special...)
 	forges := []string{"ids", "token", "token-id", "bodyids"}
 	if run.Thorough() {
 		forges = []string{"ids", "ids-swapped", "token", "token-id", "bodyids", "all"}
@@ -1893,6 +1945,11 @@ func TestVerifC11Table(t *testing.T) {
 	if run.Thorough() {
 		// flag variants of the packet type byte (compressed/encrypted bits are ignored by the dispatcher)
 		d.sweep(append(append([]byte{}, registered...), special...), []packet.Type{packet.JsonCommand | packet.Compressed, packet.CommandResp | packet.Encrypted}, []string{"ids"}, false)
+	}
+	// the variant worlds below vary the world, not the body: they run the core body kinds
+	d.kinds = map[string]bool{"aimA": true, "aimB": true, "aimH": true, "aimG": true, "default": true, "empty": true}
+	if run.Thorough() {
+		d.kinds = nil
 	}
 	// object-state variants: the same commands against victims' objects that are revoked,
 	// expired (record still stored), inactive, activated
